@@ -216,7 +216,9 @@ class ServerWorld:
             cl.setConnectionTimeout(conn_timeout)
         if msg_timeout is not None:
             cl.setMessageTimeout(msg_timeout)
-        self.clients[cid] = dict(cl=cl, addr=addr, sock=sock, cut=False, deaf=False, tag=cid, status=None, got=[], cb=[])
+        self.clients[cid] = dict(cl=cl, addr=addr, sock=sock, cut=False, deaf=False, tag=cid, status=None, got=[], cb=[],
+                                 conf=dict(ka=keepalive if keepalive is not None else 0.1, ct=conn_timeout if conn_timeout is not None else 2.0,
+                                           mt=msg_timeout if msg_timeout is not None else 1.0), hascb=bool(callback))
         world = self
 
         class Sel:
@@ -225,8 +227,9 @@ class ServerWorld:
                 s = r[0]
                 return ([s] if s.inbox else [], w, [])
         CL.select = Sel
-        self.ev.append(dict(ev="cnew", now=self.now(), c=cid, a=self.aid(addr), connTimeout=int(cl.temp_connection_timeout * 1e4), hascb=int(bool(callback)),
-                            ka=int(round(cl.keep_alive_interval * 1e4)), mt=int(round(cl.outgoing_timeout * 1e4))))
+        conf = self.clients[cid]["conf"]       # what the user configured (the harness's own record, not the library's attributes)
+        self.ev.append(dict(ev="cnew", now=self.now(), c=cid, a=self.aid(addr), connTimeout=int(round(conf["ct"] * 1e4)), hascb=int(bool(callback)),
+                            ka=int(round(conf["ka"] * 1e4)), mt=int(round(conf["mt"] * 1e4))))
         cb = (lambda ok: world.clients[cid]["cb"].append(bool(ok))) if callback else None
         cl.connect(("srv", 1), cb) if callback else cl.connect(("srv", 1))
         if cl.conn is not None:
@@ -241,7 +244,21 @@ class ServerWorld:
             {"ka": cl.setKeepAliveInterval, "mt": cl.setMessageTimeout, "ct": cl.setConnectionTimeout}[what](v)
         except Exception as e:
             err = type(e).__name__
+        self.clients[cid]["conf"][what] = v
         self.ev.append(dict(ev="cset", now=self.now(), c=cid, what=what, v=int(round(v * 1e4)), err=err))
+
+    def reconnect(self, cid):
+        """connect() again on the same UdpClient (the usual retry after a failed attempt): the configured settings must govern the new attempt"""
+        c = self.clients[cid]
+        c["cb"] = []
+        cb = (lambda ok: c["cb"].append(bool(ok))) if c["hascb"] else None
+        conf = c["conf"]
+        self.ev.append(dict(ev="cnew", now=self.now(), c=cid, a=self.aid(c["addr"]), connTimeout=int(round(conf["ct"] * 1e4)), hascb=int(c["hascb"]),
+                            ka=int(round(conf["ka"] * 1e4)), mt=int(round(conf["mt"] * 1e4))))
+        c["status"] = None
+        c["cl"].connect(("srv", 1), cb) if cb else c["cl"].connect(("srv", 1))
+        if c["cl"].conn is not None:
+            c["cl"].conn.clock = self.vt.time
 
     def client_send(self, cid, payload, retry=0, report=False):
         """send through the public API; with report=True the callback becomes a ccb event (C12 message time-out)"""
